@@ -618,6 +618,36 @@ def start_nodes(ctx: Ctx):
                    "otherwise an index can reach the mask width or the wrap-around skips nodes")
     ctx.ob("C12.d", "select_start_nodes:formula", ok, ss.loc, f"replica index r // B modulo num_loc ({n_plain} no-depot alternative(s)), + 1 for depot-style envs ({n_depot} alternative(s))" + ("; " + "; ".join(why) if why else ""),
            construct="select_start_nodes:formula")
+    # ---- start feasibility: envs whose FIRST-step mask is restricted by construction (OP: length budget; DPP / MDPP: keep-out and
+    #      probe cells) need starts drawn from the mask's support on every path; `arange(k) % n (+ 1)` ignores the mask
+    RESTRICTED_FIRST_MASK = {"op": "customers beyond the length budget are closed at the first step",
+                             "dpp": "keep-out and probe cells are closed", "mdpp": "keep-out and probe cells are closed"}
+
+    def consults_mask(v):
+        for n_ in vg.walk(v):
+            if nf._fn(n_) in ("torch.multinomial", "torch.where", "torch.nonzero") or (n_.op == "meth" and n_.args[1] in ("multinomial", "masked_fill", "nonzero")):
+                if "action_mask" in vg.cells_of(n_) or "action_mask" in vg.show(n_, 6):
+                    return True
+        return False
+    for nm_, why_ in RESTRICTED_FIRST_MASK.items():
+        paths = []
+        for g, v in alts:
+            reaches = True
+            for t, b in g:
+                if t.op in ("in", "==") and "name" in vg.show(t.args[0], 2):
+                    c = t.args[1]
+                    nms = {x.args[0] for x in (c.args if c.op in ("list", "tuple") else [c]) if isinstance(x, vg.S) and x.op == "const"}
+                    if (nm_ in nms) != bool(b):
+                        reaches = False
+            if reaches and isinstance(v, vg.S):
+                paths.append(v)
+        if not paths:
+            continue
+        bad_paths = [v for v in paths if not consults_mask(v)]
+        ctx.ob("C12.d", f"start-feasibility:{nm_}", not bad_paths, ss.loc,
+               f"every path that selects starts for '{nm_}' draws them from the action mask" if not bad_paths else
+               f"'{nm_}': {why_}, but {len(bad_paths)} of {len(paths)} selection path(s) return {vg.show(bad_paths[0], 3)[:90]} without consulting td['action_mask']: "
+               "a forced start can be infeasible although enough feasible, distinct starts exist", construct=f"select_start_nodes:feasibility:{nm_}")
     # the modulus that wraps the replica index is the instance's own node count (a td shape), not a configuration value of the env
     def modulus_source(M):
         """'instance' when M is computed from tensor shapes of the instance; 'config' when it reads generator / env attributes"""
